@@ -75,13 +75,6 @@ func runC08(c *Ctx) {
 						c.Check(heldHas(h, ".syncMutex"), "C08.L1-sync-under-mutex", key, n.Pos(),
 							"sync client invoked with the per-publisher syncMutex held", "a sync of this publisher can start while another one is running (syncMutex not held)")
 					}
-				case *ast.IndexExpr:
-					// h.subscriber.scopedBlockHook[...] as assignment target / delete argument
-					if sx, ok := n.X.(*ast.SelectorExpr); ok && sx.Sel.Name == "scopedBlockHook" {
-						if v, ok := p.TypesInfo.ObjectOf(sx.Sel).(*types.Var); ok && v.IsField() {
-							_ = v
-						}
-					}
 				}
 				return true
 			})
@@ -109,7 +102,7 @@ func runC08(c *Ctx) {
 					return true
 				}
 				v, ok := p.TypesInfo.ObjectOf(sx.Sel).(*types.Var)
-				if !ok || !v.IsField() || v.Name() != "scopedBlockHook" {
+				if !ok || !v.IsField() || canonField(v) != "scopedBlockHook" {
 					return true
 				}
 				nSlot++
